@@ -36,6 +36,9 @@ type Ctx struct {
 	NFuncs   int
 	GOARCH   string
 	GOOS     string
+	// SkippedControls: control files (pkgdir-less base names, e.g. "c06") left out because they no
+	// longer type-check against the tree under analysis
+	SkippedControls []string
 }
 
 type loadOpts struct {
@@ -92,10 +95,40 @@ func controlOverlay(repo string) (map[string][]byte, map[string]bool, error) {
 	return ov, names, nil
 }
 
+// loadRepo loads the repository with the positive-control overlay. A control file is written
+// against the repository's internal types; when an edit of the repository makes one of them
+// stop type-checking (and nothing else fails), the load is repeated without that control and
+// the control is reported as skipped instead of making every check undecidable.
 func loadRepo(o loadOpts) (*Ctx, error) {
+	skip := map[string]bool{}
+	for attempt := 0; ; attempt++ {
+		ctx, bad, err := loadRepoOnce(o, skip)
+		if err == nil {
+			for f := range skip {
+				ctx.SkippedControls = append(ctx.SkippedControls, strings.TrimSuffix(strings.TrimPrefix(filepath.Base(f), "zz_verifctl_"), ".go"))
+			}
+			sort.Strings(ctx.SkippedControls)
+			return ctx, nil
+		}
+		if len(bad) == 0 || attempt >= 3 {
+			return nil, err
+		}
+		for _, f := range bad {
+			skip[f] = true
+		}
+	}
+}
+
+// loadRepoOnce: bad lists the control files that alone account for the type errors (if any).
+func loadRepoOnce(o loadOpts, skip map[string]bool) (*Ctx, []string, error) {
+	ctx, bad, err := loadRepoImpl(o, skip)
+	return ctx, bad, err
+}
+
+func loadRepoImpl(o loadOpts, skip map[string]bool) (*Ctx, []string, error) {
 	repo, err := filepath.Abs(o.repo)
 	if err != nil {
-		return nil, err
+		return nil, nil, err
 	}
 	fset := token.NewFileSet()
 	env := append(os.Environ(), "GOFLAGS=-mod=mod", "GOPROXY=off", "GOSUMDB=off", "GOWORK=off", "GOTOOLCHAIN=local")
@@ -116,7 +149,11 @@ func loadRepo(o loadOpts) (*Ctx, error) {
 	if o.controls {
 		ov, names, err := controlOverlay(repo)
 		if err != nil {
-			return nil, fmt.Errorf("controls: %v", err)
+			return nil, nil, fmt.Errorf("controls: %v", err)
+		}
+		for f := range skip {
+			delete(ov, f)
+			delete(names, f)
 		}
 		cfg.Overlay = ov
 		ctx.Controls = names
@@ -127,15 +164,26 @@ func loadRepo(o loadOpts) (*Ctx, error) {
 	}
 	pkgs, err := packages.Load(cfg, pats...)
 	if err != nil {
-		return nil, err
+		return nil, nil, err
 	}
 	if len(pkgs) == 0 {
-		return nil, fmt.Errorf("no packages loaded from %s", repo)
+		return nil, nil, fmt.Errorf("no packages loaded from %s", repo)
 	}
 	var errs []string
+	onlyControls := true
+	badCtl := map[string]bool{}
 	packages.Visit(pkgs, nil, func(p *packages.Package) {
 		for _, e := range p.Errors {
 			errs = append(errs, e.Error())
+			file := e.Pos
+			if i := strings.Index(file, ":"); i >= 0 {
+				file = file[:i]
+			}
+			if ctx.Controls[file] {
+				badCtl[file] = true
+			} else {
+				onlyControls = false
+			}
 		}
 		ctx.All = append(ctx.All, p)
 	})
@@ -144,7 +192,13 @@ func loadRepo(o loadOpts) (*Ctx, error) {
 		if len(errs) > 8 {
 			errs = errs[:8]
 		}
-		return nil, fmt.Errorf("load/type errors: %s", strings.Join(errs, "; "))
+		var bad []string
+		if onlyControls {
+			for f := range badCtl {
+				bad = append(bad, f)
+			}
+		}
+		return nil, bad, fmt.Errorf("load/type errors: %s", strings.Join(errs, "; "))
 	}
 	for _, p := range pkgs {
 		if strings.HasPrefix(p.PkgPath, modPath) {
@@ -154,7 +208,7 @@ func loadRepo(o loadOpts) (*Ctx, error) {
 	}
 	for _, need := range []string{"sdf", "render", "render/dc", "obj", "vec/v2", "vec/v3", "vec/v2i", "vec/v3i", "vec/conv"} {
 		if ctx.Pkgs[need] == nil {
-			return nil, fmt.Errorf("package %s/%s not loaded", modPath, need)
+			return nil, nil, fmt.Errorf("package %s/%s not loaded", modPath, need)
 		}
 	}
 	prog, _ := ssautil.AllPackages(pkgs, ssa.InstantiateGenerics)
@@ -168,7 +222,7 @@ func loadRepo(o loadOpts) (*Ctx, error) {
 			ctx.NFuncs++
 		}
 	}
-	return ctx, nil
+	return ctx, nil, nil
 }
 
 // ---------------------------------------------------------------- helpers
